@@ -302,7 +302,7 @@ def drv_rename(text):
     blocks = lib.blocks
     live = [b for b in blocks if isinstance(b, M.String)]
     return ([(type(b).__name__, getattr(b, "key", None)) for b in blocks[:2]], sorted(k for k in lib.strings_dict),
-            all(lib.strings_dict[b.key] is b for b in live), len(live))
+            all(lib.strings_dict.get(b.key) is b for b in live), len(live))
 
 
 def drv_repeat(text):
